@@ -12,7 +12,9 @@ RULE = ('TLC checks on MC_Txn (all interleavings of 2 connections) that the dirt
         'same name in another database)> are enumerated and run on the real server; the EXEC reply (nil vs array) and the '
         'dataset afterwards are validated by TLC; scenarios with two watchers of one key (the other one unwatches, runs, '
         'discards, re-watches or disconnects after the write) and random interleavings of four connections that '
-        'watch / unwatch / transact / write / reconnect over three keys of two databases are validated the same way. '
+        'watch / unwatch / transact / write / reconnect over three keys of two databases are validated the same way; the forms catalogue '
+        '(403 forms: every option combination and argument class of every data command over keys of every type) is run by another connection, directly, inside EXEC and '
+        'from a script, while a watcher holds the keys of the pre-state (abort exactly when an entry changed) or only keys the form does not name (never abort). '
         'Distinct = distinct scenario or random history.')
 ASSUMPTIONS = ['a successful write that changes nothing (SADD of a present member, ...) may or may not abort (MayTouch)',
                'expiry scenarios use 40 ms TTLs and sleep past the deadline by the observer clock']
@@ -278,7 +280,30 @@ def run(ctx):
     for i in range(hist):
         random_watch_history(ctx, srv, 300 if ctx.quick else 600, 'wrand%d' % i)
     ctx.extra_cov['random_watch_histories'] = hist
-    ctx.extra_cov['distinct_cases'] = len(scs) + hist
+    # the forms catalogue (every option combination and argument class of every data command over keys of every type) run by
+    # another connection — directly, inside EXEC, from a script — while a watcher holds the keys of the pre-state (must abort
+    # exactly when an entry changed) or only the keys the form does not name (must never abort)
+    import forms, formspaths
+    tr = ctx.new_trace('forms')
+    s = Session(srv, tr)
+    nf = 0
+    F = forms.FORMS
+    try:
+        if ctx.quick:
+            nf += formspaths.run_forms(s, 'watched-direct', 0)
+            nf += formspaths.run_forms(s, 'watched-multi', 0, subset=F[ctx.seed % 4::4])
+            nf += formspaths.run_forms(s, 'watched-script', 0, subset=F[(ctx.seed + 1) % 4::4])
+            nf += formspaths.run_forms(s, 'watched-others-direct', 0, subset=F[(ctx.seed + 2) % 3::3])
+        else:
+            for path in ('watched-direct', 'watched-multi', 'watched-script', 'watched-pcall', 'watched-others-direct', 'watched-others-multi', 'watched-others-script'):
+                nf += formspaths.run_forms(s, path, 0)
+            nf += formspaths.run_forms(s, 'watched-direct', 3, 0)
+    except ServerDied:
+        tr.emit({'k': 'crash', 'status': srv.exit_status()})
+    s.close_all()
+    ctx.validate_segments(tr, 'forms')
+    ctx.extra_cov['form_segments'] = nf
+    ctx.extra_cov['distinct_cases'] = len(scs) + hist + nf
 
 
 def replay(ctx, path):
